@@ -89,3 +89,65 @@ func Harness_C10_Deposit() {
 		verifAssert("first deposit registers l1 denom", pair == req.Amount.Denom)
 	}
 }
+
+// C10 freshness: nothing is ever recorded under an id that has not been created; a newly created bridge
+// therefore starts at sequence 1 with nothing pre-recorded. Also re-establishes H1 (config present ⇔ id < next).
+func Harness_C10_Freshness() {
+	boundStores(1, 1)
+	verifConfig("maxlen:RegistrationFee", 1)
+	k, ms, ctx := setup()
+	x := verifSymU64("futureId")
+	nextId, _ := k.GetNextBridgeId(ctx)
+	verifAssume(x >= nextId)
+	verifAssume(nextId < 1<<62) // bound: fewer than 2^62 bridges were ever created (the id counter does not wrap)
+	l2 := verifSymStr("obsL2Denom")
+	oi := verifSymU64("obsIndex")
+	wh := arr32(verifSymBytes("obsClaim", 32))
+	// pre-state: nothing under x
+	verifAssume(!k.hasBridge(ctx, x))
+	_, e1 := k.NextL1Sequences.Get(ctx, x)
+	verifAssume(e1 != nil)
+	_, hadPair := k.tokenPair(ctx, x, l2)
+	verifAssume(!hadPair)
+	_, e2 := k.GetOutputProposal(ctx, x, oi)
+	verifAssume(e2 != nil)
+	_, e3 := k.NextOutputIndexes.Get(ctx, x)
+	verifAssume(e3 != nil)
+	claimed, _ := k.HasProvenWithdrawal(ctx, x, wh)
+	verifAssume(!claimed)
+
+	st := anyStep(ms, ctx)
+	nextId2, _ := k.GetNextBridgeId(ctx)
+	verifAssert("bridge ids are never handed out twice", nextId2 >= nextId)
+	if x >= nextId2 {
+		verifAssert("no config under an id not yet created", !k.hasBridge(ctx, x))
+	} else {
+		verifReach("bridge x created")
+		verifAssert("ids advance one at a time", st.ok() && st.which == mCreateBridge && st.created == x && nextId2 == x+1)
+		verifAssert("a created bridge has a config", k.hasBridge(ctx, x))
+	}
+	_, f1 := k.NextL1Sequences.Get(ctx, x)
+	verifAssert("a new or future bridge has no deposit sequence recorded (starts at 1)", f1 != nil && k.nextL1(ctx, x) == 1)
+	_, hasPair := k.tokenPair(ctx, x, l2)
+	verifAssert("a new or future bridge has no token pair", !hasPair)
+	_, f2 := k.GetOutputProposal(ctx, x, oi)
+	_, f3 := k.NextOutputIndexes.Get(ctx, x)
+	verifAssert("a new or future bridge has no outputs", f2 != nil && f3 != nil)
+	claimed2, _ := k.HasProvenWithdrawal(ctx, x, wh)
+	verifAssert("a new or future bridge has no claim records", !claimed2)
+}
+
+// C10 frame: a recorded token pair never changes, whatever the message.
+func Harness_C10_TokenPairFrame() {
+	boundStores(1, 1)
+	verifConfig("maxlen:RegistrationFee", 1)
+	k, ms, ctx := setup()
+	b := verifSymU64("obsBridge")
+	l2 := verifSymStr("obsL2Denom")
+	pre, had := k.tokenPair(ctx, b, l2)
+	verifAssume(had)
+	st := anyStep(ms, ctx)
+	_ = st
+	post, has := k.tokenPair(ctx, b, l2)
+	verifAssert("a registered token pair is never removed or changed", has && post == pre)
+}
